@@ -173,7 +173,11 @@ Ghost0 == [validated |-> [k \in Key |-> {}], last |-> [k \in Key |-> [kind |-> "
            racy |-> [k \in Key |-> FALSE], lagOnly |-> TRUE,
            \* lastW[k]: value of the latest completed file write of k (0 none);  staleNote[k]: the completion note
            \* delivered last for k was not the note of that latest write (notes of two writes of k overtook each other)
-           lastW |-> [k \in Key |-> 0], staleNote |-> [k \in Key |-> FALSE]]
+           lastW |-> [k \in Key |-> 0], staleNote |-> [k \in Key |-> FALSE],
+           \* rng: the responsible range the store was last TOLD (0 = none yet in this process life).  The range is an input
+           \* of the node, so the clauses that speak of "its responsible range" read it from here and not from what the store
+           \* says its range is (seeded/C10-9: a full store that does not take up a widened range)
+           rng |-> 0]
 
 Settled(s) == s.tasks = <<>> /\ s.notes = <<>>
 InFlightWrites(s) == {i \in 1..Len(s.tasks) : s.tasks[i].kind = "W"}
@@ -274,7 +278,7 @@ W_C10_Admission(x) ==
 MayLose(x) ==
     CASE x.ev = "Remove"      -> {x.k}
       [] x.ev = "HandleNote"  -> IF x.s.notes[x.ni].kind = "R" THEN {x.s.notes[x.ni].k} ELSE {}
-      [] x.ev = "Cleanup"     -> IF x.s.range # 0 /\ Cardinality(x.s.idx) >= x.thr THEN {k \in x.s.idx : k >= x.s.range} ELSE {}
+      [] x.ev = "Cleanup"     -> IF x.g.rng # 0 /\ Cardinality(x.s.idx) >= x.thr THEN {k \in x.s.idx : k >= x.g.rng} ELSE {}
       [] x.ev = "PutVerified" -> IF AtCapacity(x.s) /\ x.s.idx # {} THEN {TrueFarthest(x.s.idx)} ELSE {}
       [] x.ev = "Restart"     -> Key
       [] OTHER                -> {}
@@ -291,14 +295,14 @@ W_C10_ViewsAgree(x) == Only0(x.r.st.byDist = x.r.st.idx /\ x.r.st.far = TrueFart
 \*  large enough for clean-up to apply"
 W_C10_CleanupOnlyOutside(x) ==
     IF x.ev # "Cleanup" THEN {} ELSE
-         {k \in Lost(x) : ~(x.s.range # 0 /\ k >= x.s.range)}
+         {k \in Lost(x) : ~(x.g.rng # 0 /\ k >= x.g.rng)}
     \cup {k \in Lost(x) : Cardinality(x.s.idx) < x.thr}
 
 \* "the figures a node signs into a quote equal the true values" (x.g.paid: payments received so far)
 W_C10_QuoteExact(x) ==
     IF x.ev # "Quote" THEN {} ELSE
-    Only0(/\ x.r.out.close = (IF x.s.range = 0 THEN Cardinality(x.s.idx)
-                              ELSE Cardinality({k \in x.s.idx : k < x.s.range}))
+    Only0(/\ x.r.out.close = (IF x.g.rng = 0 THEN Cardinality(x.s.idx)
+                              ELSE Cardinality({k \in x.s.idx : k < x.g.rng}))
           /\ x.r.out.max = MaxRecords
           /\ x.r.out.pay = x.g.paid)
 
@@ -358,7 +362,8 @@ GhostNext(g, x) ==
          \* payments received; a crash with an unwritten metrics flush may lose the tail (not claimed by C10)
          paid |-> IF x.ev = "PaymentReceived" THEN g.paid + 1
                   ELSE IF x.ev = "Restart" /\ \E j \in 1..Len(x.s.tasks) : x.s.tasks[j].kind = "F" THEN x.r.st.pay
-                  ELSE g.paid ]
+                  ELSE g.paid,
+         rng |-> IF x.ev = "SetRange" THEN x.rg ELSE IF x.ev = "Restart" THEN 0 ELSE g.rng ]
 
 Clauses == {"C01_NoCrash", "C01_ListedViewsAgree", "C01_ListedType", "C10_NoSpuriousLoss", "C10_BelowCapacityAccepts",
             "C01_GetSound", "C01_SettledReadback", "C02_NoCorruptAfterRestart", "C02_CompletedWritesDurable",
